@@ -132,9 +132,9 @@ def kill_matrix(ctx, mutants, sizes):
     return out
 
 
-def emit_states(ctx, **kw):
-    c = write_consts(ctx, "states", emit="states", **kw)
-    return run_tlc("MCFrontDoor", "FrontDoor_states.cfg", workers=1, timeout=1500, env={"FD_CONSTS": c}, heap="2g", tag=f"{ctx.pid}-states")
+def emit_states(ctx, emit="states", **kw):
+    c = write_consts(ctx, emit + str(kw.get("peers", NP)), emit=emit, **kw)
+    return run_tlc("MCFrontDoor", "FrontDoor_states.cfg", workers=1, timeout=1500, env={"FD_CONSTS": c}, heap="2g", tag=f"{ctx.pid}-{emit}")
 
 
 def emit_walks(ctx, num, depth, seed, **kw):
@@ -228,24 +228,24 @@ def histories_from_walks(cases, rng):
 
 # ---- replay on the real nodes ---------------------------------------------------------------------------------------
 
-def replay(ctx, hists, tag, jobs=6, corrupt="", timeout=3000):
+def replay(ctx, hists, tag, jobs=6, corrupt="", timeout=3000, peers=NP):
     inp = os.path.join(ctx.work, f"{tag}.in.ndjson")
     outp = os.path.join(ctx.work, f"{tag}.out.ndjson")
     write_ndjson(inp, [{"id": i, "steps": h} for i, h in enumerate(hists)])
-    qev(["node-replay", inp, outp, os.path.join(ctx.work, "nodes"), str(jobs), corrupt], timeout=timeout)
+    qev(["node-replay", inp, outp, os.path.join(ctx.work, "nodes"), str(jobs), corrupt, str(peers)], timeout=timeout)
     outs = read_ndjson(outp)
     return outs[:-1], outs[-1]["summary"]
 
 
-def replay_with_retry(ctx, hists, tag, jobs=6):
+def replay_with_retry(ctx, hists, tag, jobs=6, peers=NP):
     """a history the harness could not drive (timeout, socket error, view moved under a request) is re-run once
     on its own; if it fails again that is a tool error, never a verdict"""
-    outs, summ = replay(ctx, hists, tag, jobs)
+    outs, summ = replay(ctx, hists, tag, jobs, peers=peers)
     bad = [o for o in outs if o.get("err") or any(s.get("obs", {}).get("stable", 1) == 0 for s in o["steps"])]
     if bad:
         ctx.add("histories_retried", len(bad))
         log(f"[{ctx.pid}] retrying {len(bad)} histories: {bad[0].get('err')}")
-        again, _ = replay(ctx, [hists[o["id"]] for o in bad], tag + "_retry", jobs=1)
+        again, _ = replay(ctx, [hists[o["id"]] for o in bad], tag + "_retry", jobs=1, peers=peers)
         for o, o2 in zip(bad, again):
             if o2.get("err") or any(s.get("obs", {}).get("stable", 1) == 0 for s in o2["steps"]):
                 raise ToolError(f"history {o['id']} could not be driven twice: {o2.get('err') or 'view moved under a request'}")
@@ -335,15 +335,15 @@ def _req_record(s, obs):
 
 # ---- judging ----------------------------------------------------------------------------------------------------------
 
-def _validate(ctx, events, tag):
+def _validate(ctx, events, tag, peers=NP):
     path = os.path.join(ctx.work, f"trace_{tag}.ndjson")
     write_ndjson(path, events)
-    consts = write_consts(ctx, "trace")
+    consts = write_consts(ctx, f"trace{peers}", peers=peers)
     return validate_trace("FrontDoorTrace", "FrontDoorTrace.cfg", path, timeout=3000, env={"FD_CONSTS": consts},
                           tag=f"{ctx.pid}-{tag}", heap="4g")
 
 
-def judge(ctx, outs, hists, tag, what, budget=8, chunks=1):
+def judge(ctx, outs, hists, tag, what, budget=8, chunks=1, peers=NP):
     """Traces are validated by TLC in `chunks` parallel runs.  A line the contract rejects stops its run:
     VIOLATION, that history is taken out and the rest of the chunk re-validated.  Lines that are not steps of the
     as-built model are printed as DRIFT (fidelity, exit 0).  Returns the number of histories accepted."""
@@ -359,7 +359,7 @@ def judge(ctx, outs, hists, tag, what, budget=8, chunks=1):
         n_ok, rnd, drifts, viols, runs = 0, 0, {}, [], []
         while todo:
             events = [e for _, t in todo for e in t]
-            ok, rej, res = _validate(ctx, events, f"{tag}-{k}-{rnd}")
+            ok, rej, res = _validate(ctx, events, f"{tag}-{k}-{rnd}", peers=peers)
             log(f"[{ctx.pid}] trace validation {tag}/{k}: {len(todo)} histories, {len(events)} events, {res.wall:.0f}s, "
                 f"{'accepted' if ok else 'REJECTED ' + json.dumps(rej)[:300]}")
             runs.append((res, f"trace validation {tag}/{k}: {len(todo)} histories, {len(events)} events"))
@@ -532,6 +532,7 @@ def run_family(ctx, P):
     # (R) emission
     f_s = ex.submit(emit_states, ctx, eps=P["eps"], sizes=P["sizes_emit"])
     res_w = emit_walks(ctx, P["walks"], P["walk_depth"], ctx.seed, eps=P["eps"], sizes=P["sizes_emit"])
+    f_n = ex.submit(emit_states, ctx, emit="states_notick", eps=P["eps"], sizes=P["sizes_emit"])
     res_s = f_s.result()
     tlc_must_pass(res_s, "state emission")
     ctx.tlc_stats(res_s, "emission: one environment history per reachable node state")
@@ -540,8 +541,15 @@ def run_family(ctx, P):
     if len(res_s.cases) < 300 or len(res_w.cases) < P["walks"] // 2:
         raise ToolError(f"emission: {len(res_s.cases)} node states, {len(res_w.cases)} walks")
     reqs = alphabet(P["eps"], P["sizes_emit"])
-    hs = histories_from_states(ctx, res_s.cases, reqs, P["per_state"], rng) + histories_from_walks(res_w.cases, rng)
-    ctx.set("emitted", {"node_states": len(res_s.cases), "walks": len(res_w.cases), "request_alphabet": len(reqs)})
+    res_n = f_n.result()
+    tlc_must_pass(res_n, "state emission without discovery passes")
+    ctx.tlc_stats(res_n, "emission: one environment history per reachable node state, single probes only (no Tick)")
+    probing = [c for c in res_n.cases if any(st["a"] in ("ProbeUp", "ProbeDown") for st in c["h"])]
+    probing = rng.sample(probing, min(P["probing"], len(probing)))
+    hs = (histories_from_states(ctx, res_s.cases, reqs, P["per_state"], rng) + histories_from_walks(res_w.cases, rng)
+          + histories_from_states(ctx, probing, reqs, P["per_state"], rng))
+    ctx.set("emitted", {"node_states": len(res_s.cases), "walks": len(res_w.cases), "request_alphabet": len(reqs),
+                        "node_states_by_single_probes_replayed": len(probing)})
     # (R) replay on real nodes, (V) judged by TLC
     outs, summ = replay_with_retry(ctx, hs, "replay", jobs=P["jobs"])
     log(f"[{ctx.pid}] replayed {summ['histories']} histories, {summ['requests']} requests in {summ['wall_s']:.0f}s")
@@ -554,6 +562,23 @@ def run_family(ctx, P):
     ctx.set("shapes_exercised", dict(sorted(tags.items())))
     for s in (outs[len(outs) // 3]["steps"][-1], outs[-1]["steps"][-1]):
         ctx.sample({k: s[k] for k in s if k not in ("sql",)}, cap=4)
+    # thorough: a second family on clusters of 3 peers (a sample of the 3-peer node states)
+    if P.get("states3"):
+        res3 = emit_states(ctx, eps=P["eps"], sizes=P["sizes_emit"], peers=3)
+        tlc_must_pass(res3, "state emission (3 peers)")
+        ctx.tlc_stats(res3, "emission: one environment history per reachable node state, 3 peers")
+        cases3 = rng.sample(res3.cases, min(P["states3"], len(res3.cases)))
+        hs3 = histories_from_states(ctx, cases3, reqs, P["per_state3"], rng)
+        outs3, summ3 = replay_with_retry(ctx, hs3, "replay3", jobs=P["jobs"], peers=3)
+        log(f"[{ctx.pid}] replayed {summ3['histories']} histories on 3-peer clusters, {summ3['requests']} requests in {summ3['wall_s']:.0f}s")
+        tally(ctx, outs3, seen, tags)
+        n3 = judge(ctx, outs3, hs3, "replay3", P["what"], chunks=P.get("chunks", 3), peers=3)
+        foreign_notes(ctx, outs3)
+        ctx.add("histories_replayed", len(outs3))
+        ctx.add("traces_validated_against_impl", n3)
+        ctx.set("shapes_exercised", dict(sorted(tags.items())))
+        ctx.cov["emitted"]["node_states_3_peers"] = len(res3.cases)
+        ctx.cov["emitted"]["node_states_3_peers_replayed"] = len(cases3)
     # (M) results
     res = f_mc.result()
     log(f"[{ctx.pid}] (M) exhaustive: {res.distinct} distinct / {res.generated} generated, depth {res.depth}, {res.wall:.0f}s")
@@ -562,9 +587,15 @@ def run_family(ctx, P):
     if res.distinct < 20000:
         raise ToolError(f"(M): only {res.distinct} states")
     if ctx.tier == "thorough":
-        for act in ("EnvAct", "Decide", "Execute", "Ack"):
-            if res.coverage.get(act, 0) <= 0:
-                raise ToolError(f"(M): action {act} never taken (coverage {res.coverage})")
+        import re
+        cov = {}
+        for m in re.finditer(r"^<(\w+) line \d+, col \d+ to line \d+, col \d+ of module FrontDoor(?: \([\d ]+\))?>: (\d+):(\d+)", res.out, re.M):
+            cov[m.group(1)] = cov.get(m.group(1), 0) + int(m.group(3))
+        ctx.set("tlc_action_coverage", cov)
+        # EnvAct = every environment step, EnvNext = Resolve/Tick/Probe*/PeerDies, Next = Decide(r), then Execute and Ack
+        for act in ("EnvAct", "EnvNext", "Next", "Execute", "Ack"):
+            if cov.get(act, 0) <= 0:
+                raise ToolError(f"(M): action {act} never taken (coverage {cov})")
     kills = {}
     for m, r in f_mut.result().items():
         if r.error:
